@@ -165,6 +165,10 @@ def c08(tier, seed):
     st4 = {"distinct": st4["distinct"] + stL["distinct"], "generated": st4["generated"] + stL["generated"]}
     nres4 += nresL
     secs4 += secsL
+    # unbounded: TLAPS proofs that Compose agrees with applying the delays one after the other, and is associative, for delays and
+    # times of every shape and ALL integer tier values (the tables bind Compose / Apply to mosaik's operators on the bounded range)
+    proof = tlc.run_tlaps("TieredProof", deps=("Tiered.tla",))
+    proof["theorems"] = ["ComposeIsSequentialApply", "ComposeAssociative"]
     fP, covP = c08_paths(tier, seed)
     findings += fP
     st4 = {"distinct": st4["distinct"] + covP["states"], "generated": st4["generated"] + covP["transitions"]}
@@ -172,6 +176,7 @@ def c08(tier, seed):
     cov = {
         "states": st["distinct"] + st4["distinct"], "transitions": st["generated"] + st4["generated"], "traces_validated_against_impl": nres + nres4,
         "accumulated_path_delays": covP,
+        "tlaps_proof": proof,
         "samples": [{"a": table["classes"][3]["ivs"][1], "b": table["classes"][3]["ivs"][5], "lt": table["classes"][3]["lt"][1][5]},
                     table["adds"][100], table["applies"][50]],
         "evaluations": nres + nres4,
